@@ -188,6 +188,7 @@ func RunC01(tier, replay string) int {
 	defer s.Close()
 
 	var cases []c01Case
+	var modelSingles []c01Case
 	if replay != "" {
 		r.Replay = true
 		var rep struct {
@@ -211,18 +212,12 @@ func RunC01(tier, replay string) int {
 				byName[d.Name] = d
 			}
 			for _, d := range defs {
-				why, dropped := run.Dropped[d.Name]
-				out := "builds"
-				if dropped {
-					out = "VIOLATION"
-					kind := "build"
-					if strings.Contains(why, "generate model failed") || strings.Contains(why, "regeneration failed") {
-						kind = "generate-fails"
-					}
-					r.Violate(evid.Violation{Signature: fmt.Sprintf("model | %s | %s | %s | %s", kind, d.Chain, leafType(d.Kw), compilerClass(why)), What: fmt.Sprintf("generate model on definition {%s}: %s", d.Desc, trunc(why, 300)),
-						Case: c01Case{Name: d.Desc, Class: d.Chain, Doc: modelsDoc([]DefCase{d}), Target: "model", Strict: true}})
+				if _, dropped := run.Dropped[d.Name]; dropped {
+					// decided below by generating and building the definition alone (3 runs)
+					modelSingles = append(modelSingles, c01Case{Name: "definition {" + d.Desc + "}", Class: "model:" + d.Chain, Doc: modelsDoc([]DefCase{d}), Target: "model", Strict: true})
+					continue
 				}
-				r.CaseKeyed("model|"+d.Desc, map[string]string{"target": "model", "definition": d.Desc}, true, out)
+				r.CaseKeyed("model|"+d.Desc, map[string]string{"target": "model", "definition": d.Desc}, true, "builds")
 			}
 			for _, e := range run.GenErrors {
 				r.HarnessError("%s", e)
@@ -316,11 +311,11 @@ func RunC01(tier, replay string) int {
 	}
 	r.Extra["generate_and_build_cases"] = len(cases)
 	r.Extra["bound_completed"] = fmt.Sprintf("G: k<=%d, depth<=%d; operations: <=%d deviating dimensions; names: %d; switches one at a time (pairs in thorough)", k, depth, opBound, len(c01Names(tier)))
-	type result struct{ genErr, buildErr string }
+	type result struct{ genErr, buildErr, flaky string }
 	results := make([]result, len(cases))
 	parallel(len(cases), runtime.NumCPU()/2, func(_, i int) {
 		g, b := genAndBuild(s, i, cases[i])
-		results[i] = result{g, b}
+		results[i] = result{genErr: g, buildErr: b}
 	})
 	// packed operation cases that fail are bisected: each operation alone
 	var singles []c01Case
@@ -332,15 +327,55 @@ func RunC01(tier, replay string) int {
 			}
 		}
 	}
+	singles = append(singles, modelSingles...)
 	sres := make([]result, len(singles))
 	parallel(len(singles), runtime.NumCPU()/2, func(_, i int) {
 		g, b := genAndBuild(s, 100000+i, singles[i])
-		sres[i] = result{g, b}
+		sres[i] = result{genErr: g, buildErr: b}
+	})
+	// believe nothing until replayed: every failing case is re-run twice more; a failure that does not
+	// reproduce identically every time is reported under one coarse "nondeterministic" signature
+	confirm := func(idx int, c c01Case, first result) result {
+		if first.genErr == "" && first.buildErr == "" {
+			return first
+		}
+		cls := func(x result) string {
+			if x.genErr != "" {
+				return "gen:" + compilerClass(x.genErr)
+			}
+			if x.buildErr != "" {
+				return "build:" + compilerClass(firstErrorLine(x.buildErr))
+			}
+			return "ok"
+		}
+		for k := 0; k < 2; k++ {
+			g, b := genAndBuild(s, 200000+idx*2+k, c)
+			if again := (result{genErr: g, buildErr: b}); cls(again) != cls(first) {
+				first.flaky = fmt.Sprintf("run 1: %s; run %d: %s", cls(first), k+2, cls(again))
+				if first.genErr == "" && first.buildErr == "" {
+					first = again
+				}
+				return first
+			}
+		}
+		return first
+	}
+	parallel(len(cases), runtime.NumCPU()/2, func(_, i int) {
+		if len(cases[i].Ops) > 1 {
+			return
+		}
+		results[i] = confirm(i, cases[i], results[i])
+	})
+	parallel(len(singles), runtime.NumCPU()/2, func(_, i int) {
+		sres[i] = confirm(50000+i, singles[i], sres[i])
 	})
 	report := func(c c01Case, res result) {
 		key := c.Name + "|" + c.Target + "|" + strings.Join(c.Args, " ")
 		sample := map[string]interface{}{"case": c.Name, "target": c.Target, "args": c.Args}
 		switch {
+		case res.flaky != "":
+			r.Violate(evid.Violation{Signature: fmt.Sprintf("%s | nondeterministic outcome", c.Target), What: fmt.Sprintf("generate %s %v on [%s] does not give the same result on every run (%s): sometimes the generated code does not build", c.Target, c.Args, c.Name, res.flaky), Case: c, Observed: trunc(res.genErr+res.buildErr, 1500)})
+			r.CaseKeyed(key, sample, true, "VIOLATION:nondeterministic")
 		case res.genErr != "" && c.Strict:
 			r.Violate(evid.Violation{Signature: fmt.Sprintf("%s | generate-fails | %s | %s", c.Target, sigClass(c.Class), compilerClass(res.genErr)), What: fmt.Sprintf("generate %s %v fails on a plain valid document [%s]: %s", c.Target, c.Args, c.Name, trunc(res.genErr, 300)), Case: c, Observed: res.genErr})
 			r.CaseKeyed(key, sample, false, "VIOLATION:generate-fails")
@@ -381,6 +416,9 @@ func RunC01(tier, replay string) int {
 }
 
 func sigClass(class string) string {
+	if strings.HasPrefix(class, "model:") {
+		return class
+	}
 	// operation classes are "loc | type | container | flags | val": keep loc, type-class and container
 	parts := strings.Split(class, " | ")
 	if len(parts) >= 3 {
